@@ -200,6 +200,131 @@ def extract_fn_names(paths):
     return sorted(found)
 
 
+# ---------------------------------------------------------------------------------------------------------
+# emit_custom_section: the byte -> text escaping of the component-type literal (C09, "exactly that world")
+BYTE_CLASSES = {"is_ascii_alphanumeric": "alnum", "is_ascii_punctuation": "punct", "is_ascii_graphic": "graphic",
+                "is_ascii_alphabetic": "alpha", "is_ascii_digit": "digit", "is_ascii_whitespace": "whitespace",
+                "is_ascii_uppercase": "upper", "is_ascii_lowercase": "lower", "is_ascii_control": "control",
+                "is_ascii": "ascii", "is_ascii_hexdigit": "hexdigit"}
+BCHAR = r"b'(\\.|[^'\\])'"
+
+
+def bchar_val(t):
+    if t.startswith("\\"):
+        return {"\\\\": 92, "\\'": 39, '\\"': 34, "\\n": 10, "\\t": 9, "\\r": 13, "\\0": 0}[t]
+    return ord(t)
+
+
+def rust_str_val(t):
+    """value of the inside of a plain Rust string literal (only the escapes used here)"""
+    out, i = [], 0
+    while i < len(t):
+        if t[i] == "\\":
+            out.append({"\\": "\\", '"': '"', "n": "\n", "t": "\t", "0": "\0"}[t[i + 1]]); i += 2
+        else:
+            out.append(t[i]); i += 1
+    return "".join(out)
+
+
+def extract_section_escape(path):
+    """parse the `for byte in component_type.iter() { … match byte { arms } }` loop of emit_custom_section into
+    (width, arms); arms = list of (pattern, action, declared line_length increment); re-printed and compared with the source"""
+    src = open(path).read()
+    body = strip_comments(fn_body(src, r"fn\s+emit_custom_section\s*\("))
+    m = re.search(r"for\s+byte\s+in\s+component_type\.iter\(\)\s*\{", body)
+    if not m:
+        raise TranslatorError("emit_custom_section: byte loop not found")
+    i = m.end() - 1
+    depth, j = 0, i
+    while True:
+        c = body[j]
+        if c == '"':
+            j += 1
+            while body[j] != '"':
+                j += 2 if body[j] == "\\" else 1
+        elif c == "'" :
+            mm = re.match(r"'(\\.|[^'\\])'", body[j:])
+            if mm: j += len(mm.group(0)) - 1
+        elif c == "{": depth += 1
+        elif c == "}":
+            depth -= 1
+            if depth == 0: break
+        j += 1
+    loop = body[i:j + 1]
+    norm = lambda t: re.sub(r"\s+", "", t)
+    w = re.search(r'if\s+line_length\s*>=\s*(\d+)\s*\{\s*s\.push_str\("((?:[^"\\]|\\.)*)"\);\s*line_length\s*=\s*0;\s*\}', loop)
+    if not w or rust_str_val(w.group(2)) != "\\\n":
+        raise TranslatorError("emit_custom_section: wrap statement `if line_length >= W { s.push_str(\"\\\\\\n\"); line_length = 0; }` not found")
+    width = int(w.group(1))
+    mm = re.search(r"match\s+byte\s*\{", loop)
+    if not mm:
+        raise TranslatorError("emit_custom_section: `match byte` not found")
+    arms_txt = loop[mm.end():loop.rindex("}", 0, loop.rindex("}"))]
+    arm_re = re.compile(
+        r"\s*(?:(?P<byte>" + BCHAR + r")|(?P<range>" + BCHAR + r"\s*\.\.=\s*" + BCHAR + r")|(?P<int>\d+)|(?P<any>_)|b\s+if\s+(?P<guard>[^=]*?))\s*=>\s*\{"
+        r"\s*(?:s\.push_str\(\"(?P<lit>(?:[^\"\\]|\\.)*)\"\)|(?P<verb>s\.push\(char::from\(\*byte\)\))|(?P<hex>uwrite!\(s,\s*\"\\\\x\{:02x\}\",\s*byte\)))\s*;"
+        r"\s*line_length\s*\+=\s*(?P<inc>\d+)\s*;\s*\}")
+    arms, pos, printed = [], 0, []
+    while True:
+        a = arm_re.match(arms_txt, pos)
+        if not a: break
+        pos = a.end()
+        if a.group("range"):
+            r2 = re.match(BCHAR + r"\s*\.\.=\s*" + BCHAR, a.group("range"))
+            pat = ("range", bchar_val(r2.group(1)), bchar_val(r2.group(2))); ptxt = f"b'{r2.group(1)}'..=b'{r2.group(2)}'"
+        elif a.group("byte"):
+            inner = re.match(BCHAR, a.group("byte")).group(1)
+            pat = ("byte", bchar_val(inner)); ptxt = f"b'{inner}'"
+        elif a.group("int") is not None:
+            pat = ("byte", int(a.group("int"))); ptxt = a.group("int")
+        elif a.group("any"):
+            pat = ("any",); ptxt = "_"
+        else:
+            cls = []
+            for t in a.group("guard").split("||"):
+                g = re.fullmatch(r"\s*b\.(is_ascii[a-z_]*)\(\)\s*", t)
+                if not g or g.group(1) not in BYTE_CLASSES:
+                    raise TranslatorError(f"emit_custom_section: guard `{t.strip()}` not understood")
+                cls.append(g.group(1))
+            pat = ("classes", [BYTE_CLASSES[c] for c in cls]); ptxt = "b if " + " || ".join(f"b.{c}()" for c in cls)
+        if a.group("lit") is not None:
+            act = ("lit", rust_str_val(a.group("lit"))); atxt = f's.push_str("{a.group("lit")}");'
+        elif a.group("verb"):
+            act = ("verbatim",); atxt = "s.push(char::from(*byte));"
+        else:
+            act = ("hex",); atxt = 'uwrite!(s, "\\\\x{:02x}", byte);'
+        inc = int(a.group("inc"))
+        arms.append((pat, act, inc))
+        printed.append(f"{ptxt} => {{ {atxt} line_length += {inc}; }}")
+    if norm(arms_txt[pos:]) != "" or norm("".join(printed)) != norm(arms_txt):
+        raise TranslatorError("emit_custom_section: round-trip mismatch of the escape arms near …" + norm(arms_txt[pos:])[:80] + "…")
+    explen = {"lit": lambda a: len(a[1]), "verbatim": lambda a: 1, "hex": lambda a: 4}
+    for pat, act, inc in arms:
+        if explen[act[0]](act) != inc:
+            raise TranslatorError(f"emit_custom_section: arm {pat} advances line_length by {inc} but emits {explen[act[0]](act)} characters")
+    fp = hashlib.sha256(norm(loop).encode()).hexdigest()[:16]
+    return width, arms, fp
+
+
+def lean_section(width, arms, fp):
+    def pat(p):
+        if p[0] == "byte": return f".byte {p[1]}"
+        if p[0] == "range": return f".range {p[1]} {p[2]}"
+        if p[0] == "any": return ".any"
+        return ".classes [" + ", ".join("." + c for c in p[1]) + "]"
+    def act(a):
+        if a[0] == "lit": return f".lit {lean_str(a[1])}.toList"
+        return "." + a[0]
+    body = ",\n  ".join(f"({pat(p)}, {act(a)})" for p, a, _ in arms)
+    return (f"/-! GENERATED by tools/gen_ident_tables.py — do not edit.  The byte escaping of `emit_custom_section`\n"
+            f"(crates/rust/src/lib.rs), fingerprint {fp}; regenerated on every `./check C09` run. -/\n"
+            "import Witverif.Text.ByteLitBase\n"
+            "namespace Witverif.Generated.RustSection\nopen Witverif.Text.ByteLit\n\n"
+            f"/-- `if line_length >= {width} {{ s.push_str(\"\\\\\\n\"); line_length = 0; }}` -/\ndef wrapWidth : Nat := {width}\n\n"
+            "/-- the arms of `match byte { … }`, in source order -/\n"
+            f"def arms : List (Pat × Act) := [\n  {body}]\n\nend Witverif.Generated.RustSection\n")
+
+
 def lean_str(s):
     return '"' + s.replace("\\", "\\\\").replace('"', '\\"') + '"'
 
@@ -232,6 +357,7 @@ def generate(repo):
     rfns = extract_fn_names([os.path.join(rs, f) for f in ("interface.rs", "lib.rs")])
     rgen = extract_generic_params([os.path.join(rs, f) for f in ("bindgen.rs", "interface.rs", "lib.rs")])
     runq = extract_unqualified([os.path.join(rs, f) for f in ("bindgen.rs", "interface.rs", "lib.rs")], RUST_PRELUDE_NAMES)
+    swidth, sarms, sfp = extract_section_escape(os.path.join(rs, "lib.rs"))
     rust = (
         "/-! GENERATED by tools/gen_ident_tables.py — do not edit.  Regenerated from /repo's working tree on every\n"
         f"`./check C09` run.  Source fingerprints: to_rust_ident {rfp}, to_upper_camel_case {cfp}, template literals {lfp}. -/\n"
@@ -266,7 +392,8 @@ def generate(repo):
         + "\n" + lean_list("fixedLocals", pfixed, "locals with a fixed name declared by `let`-free templates are not inventoried for C++; names bound by `auto`/typed declarations are found by the validation run only")
         + "\nend Witverif.Generated.CppIdent\n")
     info["cpp"] = {"match_on_snake": ton, "escape_arms": len(tt), "temp_bases": pbases, "fingerprints": {"to_c_ident": tfp, "templates": pfp}}
-    return {"RustIdent.lean": rust, "CppIdent.lean": cppl}, info
+    info["rust"]["section_escape"] = {"width": swidth, "arms": len(sarms), "fingerprint": sfp}
+    return {"RustIdent.lean": rust, "RustSection.lean": lean_section(swidth, sarms, sfp), "CppIdent.lean": cppl}, info
 
 
 def main():
